@@ -62,7 +62,7 @@ M_SEQ_TR = 'sequence:transmission:degenerate-k==xsec'
 M_SEQ_EM = 'sequence:emission:degenerate-k==xsec'
 M_PARTS = 'transmission:parts:degenerate-k==xsec'
 REQUIRED = dict(monitors=[M_TR, M_TRT, M_EM, M_EMCF, M_WEXP, M_RANGE, M_JENSEN, M_EMTAU, M_JDEPTH, M_EMK, M_SEQ_TR, M_SEQ_EM, M_PARTS],
-                classes=['parts:molecule-of-several', 'sequence:pressure-moved-by:array-refilled-in-place', 'sequence:pressure-moved-by:fitting-parameters', 'sequence:add:Rayleigh', 'sequence:set', 'sequence:rebuild', 'sequence:fault', 'sequence:fault-fired', 'family:transmission', 'family:emission', 'ngauss:1', 'ngauss:2-4', 'ngauss:5+',
+                classes=['parts:molecule-of-several', 'ktable-container:hdf5', 'ktable-container:pickle', 'sequence:pressure-moved-by:array-refilled-in-place', 'sequence:pressure-moved-by:fitting-parameters', 'sequence:add:Rayleigh', 'sequence:set', 'sequence:rebuild', 'sequence:fault', 'sequence:fault-fired', 'family:transmission', 'family:emission', 'ngauss:1', 'ngauss:2-4', 'ngauss:5+',
                          'weights:dirichlet', 'weights:gauss-legendre', 'weights:uniform',
                          'magnitude:transparent', 'magnitude:thin', 'magnitude:mixed', 'magnitude:saturating',
                          'molecules:1', 'molecules:2+', 'interp:linear', 'interp:exp', 'k:degenerate',
@@ -216,6 +216,8 @@ def make_case(rng):
         w, kind = draw_weights(rng, ng)
         spec['weights'] = {m: w for m in spec['tables']}
         spec['weights_kind'] = kind
+        if rng.random() < 0.3:
+            spec['ktable_container'] = ('hdf5', str(rng.choice(['bar', 'Pa', 'mbar', 'Ba', 'atm', 'kPa', 'hPa', 'Torr'])))
         if rng.random() < 0.25 and spec['nlayers'] >= 2:
             spec['pressure_route'] = 'array'       # layer pressures as the caller's own array
         if world.is_bound(spec):
@@ -233,8 +235,14 @@ def write_world(ctx, spec, ktabs, xsecs=None):
     for m, t in spec['tables'].items():
         x = t['xsec'] if xsecs is None else xsecs[m]
         world.write_pickle_xsec(os.path.join(xd, m + '.pickle'), t['wn'], t['T'], t['P'], x)
-        world.write_pickle_ktable(os.path.join(kd, m + '.pickle'), m, t['wn'], t['T'], t['P'], ktabs[m],
-                                  spec['weights'][m])
+        cont = spec.get('ktable_container', ('pickle', 'bar'))
+        if cont[0] == 'hdf5':
+            # the same numbers in the HDF5 container, pressure axis written in the unit the world drew
+            from vmon import lib_c14
+            lib_c14.write_ktable_hdf5(os.path.join(kd, m + '.h5'), t['wn'], t['T'], t['P'], ktabs[m], spec['weights'][m], cont[1])
+        else:
+            world.write_pickle_ktable(os.path.join(kd, m + '.pickle'), m, t['wn'], t['T'], t['P'], ktabs[m],
+                                      spec['weights'][m])
     return xd, kd, root
 
 
@@ -419,6 +427,8 @@ def observe_case(ctx, spec, degenerate):
     for c in spec['contributions']:
         if c != 'Absorption':
             ctx.observe('extra:' + (c if isinstance(c, str) else c['name']))
+    cont = spec.get('ktable_container', ('pickle', 'bar'))
+    ctx.observe('ktable-container:' + cont[0], 'ktable-pressure-unit:' + cont[1])
     ctx.observe('grid:common' if spec['common_grid'] else 'grid:per-molecule')
     if len(spec['contributions']) > 1 and spec['contributions'][-1] == 'Absorption':
         ctx.observe('order:absorption-last')
